@@ -1,6 +1,6 @@
 SPECIFICATION Spec
 CONSTANTS
-  Inputs = {"simple3"}
+  Batches <- BatchesOne
   MaxLen = 2
   Emit = TRUE
 INVARIANTS TypeOK EmitCase
